@@ -5,10 +5,11 @@
 (* A section is a handful of operations (picks, completion callbacks, one   *)
 (* serialised balancer callback ...) running as goroutines of the real      *)
 (* code.  The harness stops every goroutine in front of each Lock/RLock     *)
-(* statement (a "gate") and lets exactly one of them run from its gate to   *)
-(* its next gate.  What a goroutine does between two gates is atomic with   *)
-(* respect to the others, so the behaviours of the section are exactly the  *)
-(* orders in which gates are passed, restricted by mutual exclusion.        *)
+(* statement and right after each Unlock/RUnlock (the "gates") and lets     *)
+(* exactly one of them run from its gate to its next gate.  What a          *)
+(* goroutine does between two gates is atomic with respect to the others,   *)
+(* so the behaviours of the section are exactly the orders in which gates   *)
+(* are passed, restricted by mutual exclusion.                              *)
 (*                                                                         *)
 (* Prof[p] is the lock profile of operation p: its sequence of lock events  *)
 (* [a |-> "acq" | "rel", l |-> lock name, k |-> "W" | "R"] recorded from a  *)
@@ -29,7 +30,7 @@ CONSTANTS MaxPre        \* preemption bound
 Prof == JsonDeserialize("prof.json")
 Procs == DOMAIN Prof
 
-VARIABLES pc,      \* pc[p]: 0 = not launched, i = parked at the gate Prof[p][i] (an acq), Len+1 = finished
+VARIABLES pc,      \* pc[p]: 0 = not launched, i = parked at the gate Prof[p][i], Len+1 = finished
           held,    \* set of [p, l, k]: locks held
           cur,     \* operation that took the last step (0 at the start)
           pre,     \* preemptions so far
@@ -38,17 +39,15 @@ VARIABLES pc,      \* pc[p]: 0 = not launched, i = parked at the gate Prof[p][i]
 vars == <<pc, held, cur, pre, hist>>
 
 Fin(p) == Len(Prof[p]) + 1
-\* index of the first acq event of p at or after i (Fin(p) if none)
-NextGate(p, i) == LET S == {j \in i..Len(Prof[p]) : Prof[p][j].a = "acq"}
-                  IN IF S = {} THEN Fin(p) ELSE CHOOSE j \in S : \A x \in S : j <= x
-\* the releases between event i (exclusive) and the next gate
-RelBetween(p, i) == {Prof[p][j].l : j \in {x \in (i+1)..(NextGate(p, i+1) - 1) : Prof[p][x].a = "rel"}}
+Ev(p, i) == Prof[p][i]
 
+\* Every lock event of a profile is a gate: the operation is parked in front of an acquisition (acq) or right after a
+\* release (rel).  A step lets it pass the gate it is parked at and run to its next gate.
 Free(p, l, k) == IF k = "W" THEN \A h \in held : h.l # l
                  ELSE \A h \in held : h.l = l => (h.k = "R" /\ h.p # p)      \* sync.RWMutex: no recursive read locking
 
 Enabled(p) == \/ pc[p] = 0
-              \/ (pc[p] \in 1..Len(Prof[p]) /\ Free(p, Prof[p][pc[p]].l, Prof[p][pc[p]].k))
+              \/ (pc[p] \in 1..Len(Prof[p]) /\ (Ev(p, pc[p]).a = "rel" \/ Free(p, Ev(p, pc[p]).l, Ev(p, pc[p]).k)))
 Done(p) == pc[p] = Fin(p)
 
 Init == /\ pc = [p \in Procs |-> 0]
@@ -63,13 +62,18 @@ Step(p) ==
      /\ pre + cost <= MaxPre
      /\ pre' = pre + cost
   /\ IF pc[p] = 0
-     THEN /\ pc' = [pc EXCEPT ![p] = NextGate(p, 1)]
+     THEN /\ pc' = [pc EXCEPT ![p] = IF Len(Prof[p]) = 0 THEN Fin(p) ELSE 1]     \* runs up to its first acquisition
           /\ held' = held
      ELSE LET i == pc[p]
-              e == Prof[p][i]
-              rels == RelBetween(p, i)
-          IN /\ pc' = [pc EXCEPT ![p] = NextGate(p, i + 1)]
-             /\ held' = {h \in held \cup {[p |-> p, l |-> e.l, k |-> e.k]} : ~(h.p = p /\ h.l \in rels)}
+              e == Ev(p, i)
+              h1 == IF e.a = "acq" THEN held \cup {[p |-> p, l |-> e.l, k |-> e.k]} ELSE held
+              j == i + 1
+          IN IF j > Len(Prof[p])
+             THEN pc' = [pc EXCEPT ![p] = Fin(p)] /\ held' = h1
+             ELSE IF Ev(p, j).a = "rel"
+             THEN \* the next gate is behind a release: the lock is given up during this step
+                  pc' = [pc EXCEPT ![p] = j] /\ held' = {h \in h1 : ~(h.p = p /\ h.l = Ev(p, j).l)}
+             ELSE pc' = [pc EXCEPT ![p] = j] /\ held' = h1
   /\ cur' = p
   /\ hist' = Append(hist, p)
 
